@@ -1,5 +1,5 @@
 #!/bin/bash
-# usage: keep_neutral.sh <Cxx>   copies /tmp/seed/<Cxx>n/out/n*/ {patch.diff,meta.json} into neutral/<Cxx>n-n<k>.*
-P=$1
-for d in /tmp/seed/${P}n/out/n*; do k=$(basename $d); [ -f $d/patch.diff ] || continue; cp $d/patch.diff /verif/neutral/${P}n-$k.diff; cp $d/meta.json /verif/neutral/${P}n-$k.meta.json 2>/dev/null; done
-ls /verif/neutral/${P}n-* | wc -l
+# usage: keep_neutral.sh <Cxx> [round-suffix, e.g. 2]   copies /tmp/seed/<Cxx>n<suffix>/out/n*/ {patch.diff,meta.json} into neutral/<Cxx>n<suffix>-n<k>.*
+P=$1; R=$2
+for d in /tmp/seed/${P}n${R}/out/n*; do k=$(basename $d); [ -f $d/patch.diff ] || continue; cp $d/patch.diff /verif/neutral/${P}n${R}-$k.diff; cp $d/meta.json /verif/neutral/${P}n${R}-$k.meta.json 2>/dev/null; done
+ls /verif/neutral/${P}n${R}-* | wc -l
